@@ -27,7 +27,7 @@ CONSTANTS
 VARIABLES
   st,    \* st[r]  : layer-B state of replica r
   know,  \* know[r]: set of indices (into ops) of the ops r has learned of
-  ops,   \* the log: sequence of [op, author, deps]; deps = know[author] at issue time
+  ops,   \* the log: sequence of [op, author, deps, cmd]; deps = know[author] at issue time, cmd = the API call
   snap,  \* <<>> or <<state, knowledge>>: one saved copy (stale snapshot / backup / lagging peer)
   hist   \* path from Init (a history variable, hidden from the fingerprint by VIEW)
 
@@ -47,7 +47,7 @@ Gen(r) ==
   /\ Len(ops) < MaxOps
   /\ \E cmd \in Cmds(st[r], r) :
        LET op == MkOp(st[r], r, cmd) IN
-       /\ ops' = Append(ops, [op |-> op, author |-> r, deps |-> know[r]])
+       /\ ops' = Append(ops, [op |-> op, author |-> r, deps |-> know[r], cmd |-> cmd])
        /\ st' = [st EXCEPT ![r] = Apply(@, op)]
        /\ know' = [know EXCEPT ![r] = @ \cup {Len(ops) + 1}]
        /\ hist' = Append(hist, <<"gen", r, cmd>>)
@@ -110,6 +110,11 @@ Persist(r) == UNCHANGED vars
 Next == \E r \in Reps : Gen(r) \/ Deliver(r) \/ Redeliver(r) \/ MergeFrom(r) \/ SaveSnap(r) \/ MergeSnap(r)
 
 Spec == Init /\ [][Next]_vars
+
+\* "this step is a local edit of replica r" in terms of the log only (hist is hidden
+\* by VIEW and must not be used in action properties)
+IsGenBy(r) == Len(ops') = Len(ops) + 1 /\ ops'[Len(ops')].author = r
+NewOp == ops'[Len(ops')]
 
 \* ---- generic facts about the log ----------------------------------------
 \* the transitive causal past of op i (deps alone is not causally closed
